@@ -30,6 +30,9 @@ def gen_set(rnd):
             L.append('ServiceName=' + rnd.choice(['psvc-' + refs.stem_of(p).replace(' ', '_'), 'pod svc', 'cache.service', 'a.b', 'x.service.service', 'p.pod']))
         if rnd.random() < 0.3:
             L.append('PodName=pn-' + refs.stem_of(p).replace(' ', '_'))
+        if len(L) == 1 and rnd.random() < 0.35:
+            # every key of [Pod] is optional, and so is the section: a pod file that is empty, or holds only other sections, is a pod
+            L = rnd.choice([[], ['[Unit]', 'Description=just a pod'], ['[Install]', 'WantedBy=default.target'], ['# a pod with defaults only']])
         fs[p] = '\n'.join(L) + '\n'
     for s in stems[n_p:]:
         L = ['[Container]', 'Image=localhost/i']
